@@ -20,14 +20,14 @@ CHECKS = {
              text='The level assignment is transcribed and model-checked; for TLC-generated programs over F_47 (every assignment) and corpus circuits with hints, lookups and commitments on several curves, the solution the real solver hands to the backend (captured at a build-tag hook) is re-evaluated on the exported rows, instruction reads/writes/levels observed through the blueprints are checked for soundness, and scheduling traces (level, instruction, wire-set events) are validated by TLC.',
              note='Failure direction (fails only when a constraint is violated) is judged through ApiSemantics on generated programs; interleavings are those the Go runtime produces plus the task-split boundary sweep of C10.', ref='6 C06'),
  'C07': dict(tech='TLA+ specification of the documented leaf order and visibility (Schema.tla) generating circuit struct types; each generated Go type replayed through NewWitness, encodings, Compile and Solve',
-             text='Schema.tla defines declaratively which leaves a circuit struct has, in which order and with which visibility, and generates ~240 type trees (all tag forms, arrays, slices, nested / pointer / embedded structs); a Go circuit type is generated per tree and the real NewWitness (full, Public, PublicOnly), binary and JSON round trips, and Compile+Solve with both builders are compared with the specification (every variable carries the value assigned to its field; exchanging two values breaks the circuit), on every field; 16 assignment value kinds are checked to reduce modulo the field.',
+             text='Schema.tla defines declaratively which leaves a circuit struct has, in which order and with which visibility, and generates ~380 type trees (all tag forms, arrays, slices, nested / pointer / embedded structs, arrays of structs, and an exhaustive family of named slice / struct types that size themselves in a GnarkInitHook); a Go circuit type is generated per tree and the real NewWitness (full, Public, PublicOnly), binary and JSON round trips, and Compile+Solve with both builders are compared with the specification (every variable carries the value assigned to its field; exchanging two values breaks the circuit), on every field; 16 assignment value kinds are checked to reduce modulo the field.',
              note='The type corpus is a fixed seeded sample of the tree grammar (regenerated when the spec changes); tags on embedded fields and inherit without explicit enclosing visibility are outside the documented domain.', ref='6 C07'),
  'C08': dict(tech='TLA+ step-machine model of both verifiers over input shapes (VerifierRobust.tla) + framing alphabet (Framing.tla), exhaustive in TLC; every shape and mutation replayed on real decoders/verifiers',
              text='TLC explores every combination of variable-length-part lengths (0..4 / 0..10) against the key on the transcribed step lists (no out-of-range access, inconsistent shapes end in an error) and enumerates every framing mutation of the encodings; all are applied to real proofs/witnesses (direct, compressed and raw encodings) and the real decode/verify outcome must be error or acceptance, never a panic or crash.',
              note='Content-level corruption inside a point encoding is sampled by bit flips; arbitrary byte strings are covered structurally, not by coverage-guided fuzzing. Allocation-bomb prefixes run under ulimit -v 8GB.', ref='6 C08'),
  'C09': dict(tech='TLA+ pipeline spec (Artifacts.tla) enumerated by TLC; every pipeline with encode/decode round trips replayed on the real encoders/decoders, provers and verifiers',
              text='TLC enumerates every Compile-Setup-Prove-Verify pipeline in which up to two of constraint system, proving key, verifying key, proof and witness go through a round trip in any offered encoding (compressed, raw, dump, unsafe read, JSON); each is replayed on the real code: reported byte counts, byte-identical re-encoding, identical solution of the decoded system, proofs made with decoded artifacts verify and the original proof verifies under decoded keys.',
-             note='14 circuits covering the instruction kinds; cross-version compatibility is out of scope.', ref='6 C09'),
+             note='15 circuits covering the instruction kinds (incl. a circuit delegating to GKR); a process crash inside gnark code during a pipeline is attributed and reported; cross-version compatibility is out of scope.', ref='6 C09'),
  'C10': dict(tech='TLA+ concurrency model of the shared lookup-blueprint cache and option slice (SharedCS.tla), exhaustive in TLC; every schedule replayed deterministically on the real solver through build-tag gates; stress/history differential (and -race in thorough)',
              text='TLC explores all interleavings of 2 concurrent Solve calls on one lookup-table system at statement and at gate granularity and the option-slice append design; all 224 gate-level schedules are replayed on the real code with a blocking-hook scheduler and the entries each caller really reads are compared with the model and with its own table; nbTasks sweep, call histories and concurrent Solve/Prove/Verify sharing cs, pk, vk, proofs and an option slice with spare capacity are compared with sequential results.',
              note='Known open finding F5 (shared lookup cache) is reproduced deterministically and reported as KNOWN-FINDING; shared state outside the modelled objects is only seen by the stress differential / race detector.', ref='6 C10'),
@@ -47,7 +47,7 @@ CHECKS = {
              text='Every call of cmp.IsLess/IsLessOrEqual, selector.Mux (2-5 inputs), Map, Decoder and bitslice.Partition with every operand-kind pattern is compiled by both builders over F_47; the honest solve must give the exact result inside the domain and fail outside it for every assignment, and every satisfying assignment of every wire (all hinted indicators / bits) must obey the documented relation; TLC enumerates a seeded subset itself with matching state counts.',
              note='The bounded comparator and the 8/32/64-bit word gadgets (wider than the toy field, built on the log-derivative argument) are not covered by this generator.', ref='6 C14'),
  'C15': dict(tech='TLA+ transcription of the padding / block-count rules of the hash gadgets (HashFraming.tla) with TLC checking that the replayed length classes cover every framing boundary; enumerated framing cases replayed on the real gadgets against the native implementations',
-             text='TLC checks BoundaryCover and BlocksMinimal for SHA-256, RIPEMD-160, SHA3-256/384/512, Keccak-256/512 and enumerates family x boundary length x 7 write chunkings, variable-length sums (length x declared maximum x minimal-length option), MiMC / Poseidon2 by element count, chunking and state export/import point, Merkle proofs by tree size and leaf, Fiat-Shamir transcripts; each case must reproduce the native digest on the real gadget (test engine; a sample through both builders and solvers) and reject a wrong digest, the digest of a shorter prefix, a wrong leaf index or an altered sibling.',
+             text='TLC checks BoundaryCover and BlocksMinimal for SHA-256, RIPEMD-160, SHA3-256/384/512, Keccak-256/512 and enumerates family x boundary length x 7 write chunkings, variable-length sums (length x declared maximum - with the padding boundaries of the maximum itself - x minimal-length option), MiMC / Poseidon2 by element count, chunking and state export/import point, Merkle proofs by tree size and leaf, Fiat-Shamir transcripts; each case must reproduce the native digest on the real gadget (test engine; a sample through both builders and solvers) and reject a wrong digest, the digest of a shorter prefix, a wrong leaf index or an altered sibling.',
              note='Message contents are seeded pseudo-random bytes; lengths up to two blocks + 1.', ref='6 C15 / 11.2'),
  'C16': dict(tech='TLA+ models checked / enumerated by TLC - CurveOps.tla (group law on point names with each method\'s documented domain), ToySig.tla (ECDSA and EdDSA written out over toy groups, every key x nonce x message, deciding per edit class which signatures must verify), FakeGLV.tla (what the checks of a hinted scalar multiplication bind when the prover chooses the hints) - with every case / class / winning strategy replayed on the real gadgets against the native libraries and through the real Groth16 prover',
              text='Points are named by discrete logarithm (infinity, P=Q, P=-Q arise as names), scalars by 0..3, r-1, r, r+1; TLC checks the domain rules of Add / AddUnified / Double / Neg / ScalarMul / ScalarMulBase / JointScalarMulBase / MultiScalarMul with and without complete arithmetic for consistency and enumerates 444 cases; every in-domain case runs on sw_emulated (secp256k1, BN254, BLS12-381, BW6-761, P-256, P-384) and on the native twisted Edwards curve and must equal the native [k]G, [k+1]G must be rejected; hang-prone cases run one per process under a timeout. ToySig.tla: 19 edit classes of a genuine signature (s -> n-s, zero / incremented / swapped / non-canonical components, other message, other key) with TLC-proved verdicts, replayed on std/signature/ecdsa (secp256k1, P-256, P-384) and std/signature/eddsa (four companion curves) and on gnark-crypto / crypto/ecdsa. FakeGLV.tla: three designs of the decomposition check, TLC finds the winning prover strategies of the unsound ones; they are run against ScalarMul of the native twisted Edwards gadget and of sw_emulated with complete arithmetic by overriding the hints in a real Groth16 Prove / Verify.',
@@ -59,7 +59,7 @@ CHECKS = {
              text='TLC enumerates, for both phases, circuits with 0, 1 or 2 commitments (and a phase-1 domain larger than needed) and 1-3 contributions, the transcripts a verifier may be handed: honest, one serialized element altered (every component x first/mid/last x double/negation/infinity, challenge bit flip), contributions swapped, dropped, duplicated, spliced from a second honest chain, a dishonest contributor binding its update proofs to a challenge of its own choosing, phase 2 checked against another phase-1 output or another circuit; the verdict is "every contribution unaltered and extending its predecessor". Each transcript goes through WriteTo / byte edit / ReadFrom / VerifyPhase1|2 of the real package on the curves; accepted phase-2 transcripts must give keys that prove, verify and reject other public inputs.',
              note='Knowledge soundness of the update proofs is an ideal rule; replacements are other valid group elements, not arbitrary bytes; small domains only.', ref='6 C18 / 11.2'),
  'C19': dict(tech='TLA+ generator and reference evaluation of GKR circuit topologies (GkrTopo.tla) run by TLC; topologies replayed through std/gkr on the real fields with the solving and proving hints perturbed',
-             text='Every one-gate topology and simulated 2-4 gate topologies (add, sub, mul, neg, identity; fan-out; 1, 2, 4, 8 instances; series dependencies between instances) are evaluated directly over F_47 by TLC and replayed through std/gkr: exported values equal the direct evaluation in the test engine and in the compiled circuit proven with Groth16, a wrong exported value is rejected, and each output of the GKR solving hint and proving hint perturbed by one makes the proof fail.',
+             text='Every one-gate topology and simulated 2-4 gate topologies (add, sub, mul, neg, identity; fan-out; 1, 2, 4, 8 instances; series dependencies between instances, including patterns that force a solving order other than the declaration order: reverse chain and a 3-cycle) are evaluated directly over F_47 by TLC and replayed through std/gkr: exported values equal the direct evaluation in the test engine and in the compiled circuit proven with Groth16, a wrong exported value is rejected, and each output of the GKR solving hint and proving hint perturbed by one makes the proof fail.',
              note='Natively registered gates only (custom gates need an internal package); Fiat-Shamir hash MiMC; soundness of sum-check beyond single-output perturbations is a cryptographic assumption.', ref='6 C19 / 11.2'),
  'C20': dict(tech='TLA+ entropy-as-resource model of prover randomness (Blinding.tla) checked by TLC; every history replayed on the real provers with deterministic parts recomputed from the solved wires and keys',
              text='TLC checks on all histories of 2-3 proofs that every blinded element depends on a fresh symbol; each history (backend x circuits with 0-3 commitments x statistical ZK) is replayed on the real provers of the curves: Groth16 Ar/Bs and PLONK L/R/O are compared with the deterministic commitments recomputed from the captured wire values and the proving key, and all blinded elements (Ar, Bs, Krs, Pedersen commitments; L, R, O, Z, H shards, BSB22 commitments) pairwise across proofs of one witness.',
